@@ -80,9 +80,19 @@ def as_container(x, k):
     """the same numbers in different containers (list, tuple, float array): the API accepts all of them"""
     import numpy as np
     # documented argument form is a list; numpy arrays are what callers pass in practice; tuples are not promised
-    if k % 2 == 0:
+    if k % 3 == 0:
         return list(x)
-    return np.array(x, dtype=float)
+    if k % 3 == 1:
+        return np.array(x, dtype=float)
+    # a buffer the caller reuses: the SAME array object, refilled in place for every call (a cache keyed on the identity of its
+    # argument answers for the previous contents)
+    a = np.array(x, dtype=float)
+    buf = _BUFFERS.setdefault(a.shape, np.zeros(a.shape))
+    buf[...] = a
+    return buf
+
+
+_BUFFERS = {}
 
 
 _KEPT = {}
@@ -139,7 +149,14 @@ def twice(f, *args):
             if not _same(obj, snap):
                 msg = "%s: a value returned by an earlier call was changed by a later call (results share storage)" % name
                 break
-    old.append((r1, keep1))
+    import numpy as np
+    try:
+        alias = any(isinstance(a, np.ndarray) and isinstance(q, np.ndarray) and np.shares_memory(a, q)
+                    for a in args for q in (r1 if isinstance(r1, tuple) else (r1,)))
+    except Exception:
+        alias = False
+    if not alias:          # a result that is (a view of) the caller's own array legitimately follows that array
+        old.append((r1, keep1))
     if len(old) > 4:
         del old[0]
     return r1, msg
